@@ -35,6 +35,9 @@ pub struct Scn {
     pub max: u32,
     pub delay: Delay,
     pub calls: Vec<Call>,
+    /// clones of the inner service need this long before they are ready (0 = ready at once)
+    #[serde(default)]
+    pub clone_warmup_ms: u64,
     pub knobs: SchedKnobs,
 }
 
@@ -76,6 +79,7 @@ pub fn gen(rng: &mut Rng) -> Scn {
         max,
         delay,
         calls,
+        clone_warmup_ms: if rng.chance(1, 4) { *rng.pick(&[5u64, 30, 200]) } else { 0 },
         knobs: SchedKnobs::gen(rng, true, 60),
     }
 }
@@ -96,6 +100,7 @@ pub fn valid(s: &Scn) -> bool {
             Delay::Immediate => true,
             Delay::Table(t) => t.len() >= 4 && t.len() <= 6 && t.iter().all(|d| *d >= 1 && *d <= 100),
         }
+        && s.clone_warmup_ms <= 500
         && s.knobs.jumps.len() <= 3
         && s.knobs.jumps.iter().all(|j| j.0 <= 300 && j.1 <= 200)
 }
@@ -123,6 +128,9 @@ pub fn run(s: &Scn, ctx: &mut RunCtx) -> RunOutput {
         world::with(|w| {
             for (i, c) in scn.calls.iter().enumerate() {
                 w.script.by_req.insert((0, i as u32), c.attempts.clone());
+            }
+            if scn.clone_warmup_ms > 0 {
+                w.script.clone_warmup_ms.insert(0, scn.clone_warmup_ms);
             }
         });
         let mut b = HedgeLayer::builder().max_hedged_attempts(scn.max as usize);
@@ -183,9 +191,12 @@ pub fn run(s: &Scn, ctx: &mut RunCtx) -> RunOutput {
         // spacing
         for j in 1..mine.len() {
             if parallel {
-                if mine[j].start_us != mine[0].start_us && jump == 0 {
+                // hedges run on fresh clones, which may need their warm-up first
+                if mine[j].start_us != mine[0].start_us + s.clone_warmup_ms * 1000 && jump == 0 {
                     world::violation("C12.spacing", "parallel", format!("call {}: parallel mode but attempt {} started at {}us, primary at {}us", i, j, mine[j].start_us, mine[0].start_us));
                 }
+            } else if s.clone_warmup_ms > 0 && jump > 0 {
+                // a clock jump can end the warm-up of two hedge clones on one instant
             } else {
                 let d = delay_for(&s.delay, j);
                 if mine[j].start_us < mine[j - 1].start_us.saturating_add(d) {
